@@ -72,8 +72,8 @@ def units(tier, seed):
             ("U233", 50, "all", "full"),
             ("U332", 25, "all", "mid"),
             ("U332", 25, "distinct", "full"),
-            ("U432", 150, "distinct", "small"),
-            ("U442", 400, "base", "small"),
+            ("U432", 150, "base", "small"),
+            ("U442", 400, "base", "tiny"),
             ("F", 1, "f", "full"),
         ]
     plan.sort(key=lambda t: t[0] != "F")  # heavy feature family first
